@@ -347,6 +347,13 @@ def realdirpath_rules(ctx, rid):
             continue
         ne = any(q.endswith("::ne") for q in callee_paths(t))
         nf.append((sw, f_t if ne else t_t))
+    # .. or through a local predicate that makes that comparison (`is_not_there(&e)`: NotFound or ENOTDIR)
+    preds = sorted(k for k, b_ in prog.bodies.items() if k.startswith("state::") and b_.locals and b_.locals[0] == "bool" and
+                   any(s_["s"] == "assign" and s_["rv"]["k"] == "agg" and s_["rv"].get("variant") == "NotFound" for blk_ in b_.blocks for s_ in blk_["stmts"]))
+    if preds:
+        for (sw, t_t, f_t, cbb) in rba.switches_on_call("|".join(re.escape(k) for k in preds)):
+            nf.append((sw, t_t))
+    ctx.floor(rid, "`does not exist` sides of canonicalize() in realdirpath", len(nf), 1)
     for n, (sw, side) in enumerate(nf):
         later = [c for c in canon if rba.path([side], [c], incl=True) is not None]
         # the resolved path: the Ok payload of those calls (not the error, which may legitimately be returned as it is)
